@@ -108,6 +108,11 @@ func reportFaithful(st *traceStep) (bool, string) {
 					return false, "omitted criterion still present in the state handed on"
 				}
 			}
+			for a, vals := range all {
+				if _, has := vals[id]; has {
+					return false, "alternative " + a + " handed on still carries a value of the criterion reported as omitted (" + id + ")"
+				}
+			}
 		}
 	case "anchoring":
 		ar, _ := rep["applierResult"].(map[string]interface{})
